@@ -69,8 +69,9 @@ impl Rng {
     }
     /// random scalar value biased to 1-, 2-, 3-, 4-byte UTF-8 classes and their boundaries
     pub fn char(&mut self) -> char {
-        const EDGE: [u32; 12] = [
-            0x20, 0x7f, 0x80, 0x7ff, 0x800, 0xd7ff, 0xe000, 0xfffd, 0xffff, 0x10000, 0x10ffff, 0x1f600,
+        const EDGE: [u32; 24] = [
+            0x20, 0x7f, 0x80, 0x7ff, 0x800, 0xd7ff, 0xe000, 0xfffd, 0xffff, 0x10000, 0x10ffff, 0x1f600, 0x200d, 0x200c, 0x200b,
+            0xfeff, 0xfe0f, 0x301, 0x202e, 0xa0, 0x0, 0x100000, 0x1f3fb, 0x2028,
         ];
         let c = match self.below(8) {
             0 => *self.pick(&EDGE),
